@@ -286,6 +286,9 @@ class ODMLReader:
 
         if self.parser == 'YAML':
             try:
+                # as in from_file: files written by the Python 2 releases tag their texts
+                yaml.SafeLoader.add_constructor("tag:yaml.org,2002:python/unicode",
+                                                unicode_loader_constructor)
                 self.parsed_doc = yaml.safe_load(string)
             except yaml.parser.ParserError as err:
                 print(err)
